@@ -4,6 +4,14 @@ import json, os
 HERE = os.path.dirname(os.path.dirname(os.path.abspath(__file__)))
 
 CLAIMED = {
+ 'C19': ('regex automaton language equivalence (name symbolic) + AST path rules for the matching loop and failure',
+         'The ldd pattern is compared for language equivalence with the rule stated in the property over all words (exhaustive, library name as opaque symbol); structural rules decide header-line skip, first-match-wins, one file per request, base-name reporting, SystemExit on any unresolved name, no swallowing handler, libtool dlname pattern.',
+         'Not decided: loader output conventions (ldd/otool formats). Trusted: CPython re._parser, the homomorphism argument of DESIGN.md §4 C19.',
+         '§4 C19'),
+ 'C20': ('taint-style AST rules (value -> stdlib quoteattr/escape -> sink), CFG ordering in push_tag, who-may-call over giscanner',
+         'Decides for all inputs the escaping discipline (attribute values only through xml.sax.saxutils.quoteattr, text only through escape, untransformed, single sink), sibling None-skips, whitespace-only wrapping, exception-atomic element stack with try/finally pairing and no outside callers, utf-8 agreement.',
+         'Not decided: element/attribute names that are not XML names, "--" inside comments. Trusted: xml.sax.saxutils semantics.',
+         '§4 C20'),
  # id: (technique, level text, level_note, design_ref)
  'C13': ('AST rule checking: guard/modulus agreement, argument-binding and def-use of Member/Constant construction, writer loop order',
          'Decides from the source, for every input, the structural necessary conditions: each fixed-width unsigned wrap uses its own width; members are built from (ident, const_int) verbatim in declaration order and written unsorted; bitfield routing; constant typing rows. Exhaustive over the finite set of rule instances.',
